@@ -67,6 +67,8 @@ hmod!(pub(crate) c15, "c15.rs");
 #[cfg(all(not(feature = "shuttle"), feature = "descriptive-gate"))]
 hmod!(pub(crate) c17, "c17.rs");
 #[cfg(all(not(feature = "shuttle"), feature = "descriptive-gate"))]
+hmod!(pub(crate) c16v, "c16v.rs");
+#[cfg(all(not(feature = "shuttle"), feature = "descriptive-gate"))]
 hmod!(pub(crate) c19, "c19.rs");
 #[cfg(all(not(feature = "shuttle"), feature = "descriptive-gate"))]
 hmod!(pub(crate) c19p, "c19p.rs");
